@@ -32,8 +32,14 @@ def new_interp(policy="uf"):
         it_.A.lemma(("ginc", r.get_id()), z3.And(r >= 0, r <= 1))
         it_.calls["gammainc"].append((args, r))
 
+    it.nonfinite_when = {}
+
     def h_ndtri(it_, st, args, r):
         it_.calls["ndtri"].append((args, r))
+        u = V.to_real(args[0])
+        # the normal quantile is infinite exactly at 0 and 1 (np.isfinite of the result is modelled through this)
+        it_.nonfinite_when[r.get_id()] = z3.Or(u <= 0, u >= 1)
+        it_._alive.append(r)
     it.special_hooks["gammainc"] = h_gammainc
     it.special_hooks["ndtri"] = h_ndtri
     return it
